@@ -378,3 +378,30 @@ CONTRACTS += [
                       ('nothing-else-changes', 'len(result) <= 2')],
              note='two existing entries with arbitrary spans and texts, one new entity; ends are exclusive (start + length)'),
 ]
+
+# ---- C01 / C12 (Chinese merged extractor): a modifier character is absorbed only when it directly follows the entity
+_ZMOD_ENV = {'before_regex': {'mode': 'match', 'literal': '后'}, 'after_regex': 'none', 'until_regex': 'none',
+             'since_prefix_regex': 'none', 'since_suffix_regex': 'none', 'equal_regex': 'none'}
+
+
+def _zh_add_mod(cid, gap, post, note):
+    return Contract(cid, ZME + 'add_mod', ['C01', 'C12'], unroll=4,
+                    params=dict(dict((f'{p}{k}', Int(0, 25)) for p in 'xz' for k in range(3)),
+                                ent=Expr(_L3('x')), rest=Expr(_L3('z')),
+                                self=Rec(DT + 'chinese/merged_extractor.py::ChineseMergedExtractor', dict(config=Config())),
+                                source=Expr(f'ent + "{gap}后" + rest'),
+                                e0=Rec(RT + 'extractor.py::ExtractResult', dict(start=Const(0), length=Const(3), text=Expr('ent'), type=Const('date'),
+                                                                               data=Const(None), meta_data=Const(None))),
+                                extract_results=Expr('[e0]')),
+                    regex_env=_ZMOD_ENV, ensures=post, note=note)
+
+
+CONTRACTS += [
+    _zh_add_mod('c01.chinese.add_mod.modifier_elsewhere', 'x',
+                [('an-entity-is-not-stretched-to-a-modifier-character-further-on', 'e0.start == 0 and e0.length == 3 and e0.text == ent')],
+                'layout: entity, one other character, the modifier character 后, more text: the modifier does not follow the entity'),
+    _zh_add_mod('c01.chinese.add_mod.modifier_adjacent', '',
+                [('the-modifier-character-right-after-the-entity-is-absorbed-with-the-right-text',
+                  'e0.start == 0 and e0.length == 4 and e0.text == ent + "后"')],
+                'layout: entity directly followed by the modifier character 后'),
+]
